@@ -151,6 +151,16 @@ func runC12(c *Ctx) {
 	c12ReplayPrefix(c, progs)
 	c12DomainSeparation(c, progs)
 	c12BlockBinding(c, progs)
+	// the commitment binds only if block validation compares it: for every v2 block, against the commitment
+	// recomputed from the parent state, the miner address and all transactions of the block
+	ge := NewGuardEngine(c.P, c.Depth+4)
+	blk := "{types.Block}"
+	tab := []GuardReq{
+		req("v2-commitment-checked", VB, blk+".V2.Commitment", opNE, "call (consensus.State).Commitment(%ST%, "+blk+".MinerPayouts[0].Address, "+blk+".Transactions, call (types.Block).V2Transactions("+blk+"))",
+			"a v2 block's ID binds parent state, miner address and every transaction: validation rejects a block whose commitment is not the recomputed one", blk+".V2 != nil"),
+	}
+	runGuardTable(c, "commitment-guard", ge, tab)
+	c.Min("commitment-guard", len(tab))
 }
 
 var parentRe = regexp.MustCompile(`^\.(SiacoinInputs|SiafundInputs|FileContractRevisions|FileContractResolutions)\[\*\]\.Parent\.`)
